@@ -382,6 +382,82 @@ def obligations(tier):
 
         obs.append(Obligation(f'equality.{name}', body, twin=lambda cx, b=body: b(cx, wrong=True), opts={'weight': 2}, desc='g(e1) == g(e2) / approx_eq / equal_up_to_global_phase True on a path (periodic canonicalisation of symbolic exponents) implies the documented matrices agree (up to phase for the last)'))
 
+    # ---- 5b. equality predicates on OPERATIONS: qubit order matters -----------------------------------------------------
+    EQ_OPS = [('CX', cirq.CXPowGate, D.CX, 2), ('CZ', cirq.CZPowGate, D.CZ, 2), ('CY', cirq.CYPowGate, D.CY, 2), ('SWAP', cirq.SwapPowGate, D.SWAP, 2), ('CCX', cirq.CCXPowGate, D.CCX, 3), ('CCZ', cirq.CCZPowGate, D.CCZ, 3)]
+
+    def eq_ops_body(cx, wrong=False):
+        name, cls, doc, k = EQ_OPS[cx.choose('gate', len(EQ_OPS))]
+        qs = cirq.LineQubit.range(k)
+        perms = list(itertools.permutations(range(k)))
+        p1 = perms[cx.choose('order1', len(perms))]
+        p2 = perms[cx.choose('order2', len(perms))]
+        e1 = cx.real('e1', -3.0, 3.0)
+        e2 = cx.real('e2', -3.0, 3.0)
+        tagged = cx.choose('tagged', 2)
+        op1 = cls(exponent=e1).on(*[qs[i] for i in p1])
+        op2 = cls(exponent=e2).on(*[qs[i] for i in p2])
+        if tagged:
+            op1, op2 = op1.with_tags('t'), op2.with_tags('t')
+        mode = cx.choose('pred', 3)
+        r = (op1 == op2) if mode == 0 else (cirq.approx_eq(op1, op2, atol=1e-9) if mode == 1 else cirq.equal_up_to_global_phase(op1, op2, atol=1e-9))
+        if wrong:
+            r = True
+        if bool(r):
+            # no global shift: all three predicates then mean equality of the operators on the fixed qubit order
+            cx.close(EM.embed_matrix(doc(e1), list(p1), k), EM.embed_matrix(doc(e2), list(p2), k), tol=1e-6, label=f'{name}: predicate {mode} True on operations => same operator on (q0..q{k - 1})')
+
+    obs.append(Obligation('equality.operations_qubit_order', eq_ops_body, twin=lambda cx: eq_ops_body(cx, wrong=True), opts={'weight': 6}, desc='op1 == op2 / approx_eq / equal_up_to_global_phase on (tagged) gate OPERATIONS of 6 two/three-qubit gate families placed on every pair of qubit orders, symbolic exponents: a True answer implies the same operator on the fixed qubit order (asymmetric gates on exchanged qubits are different operations)'))
+
+    # ---- 5c. equality of controlled operations with correlated control values ---------------------------------------------
+    def cv_menu():
+        SoP, PoS = cirq.SumOfProducts, cirq.ProductOfSums
+        # (control_values object, allowed joint values of the LISTED controls, written out by hand)
+        return [
+            (PoS([(1,), (1,)]), {(1, 1)}),
+            (PoS([(0,), (1,)]), {(0, 1)}),
+            (PoS([(0, 1), (1,)]), {(0, 1), (1, 1)}),
+            (PoS([(0, 1), (0, 1)]), {(0, 0), (0, 1), (1, 0), (1, 1)}),
+            (SoP([(0, 0), (1, 1)]), {(0, 0), (1, 1)}),
+            (SoP([(0, 1), (1, 0)]), {(0, 1), (1, 0)}),
+            (SoP([(0, 0), (0, 1), (1, 0), (1, 1)]), {(0, 0), (0, 1), (1, 0), (1, 1)}),
+            (SoP([(1, 1)]), {(1, 1)}),
+            (SoP([(0, 1), (1, 1)]), {(0, 1), (1, 1)}),
+            (SoP([(0, 1)]), {(0, 1)}),
+        ]
+
+    CVM = cv_menu()
+
+    def eq_ctrl_body(cx, wrong=False):
+        c0, c1, tq = cirq.LineQubit.range(3)
+        t = cx.real('t', -3.0, 3.0)
+        mats = []
+        ops_ = []
+        for side in (1, 2):
+            cv, allowed = CVM[cx.choose(f'cv{side}', len(CVM))]
+            swap = cx.choose(f'listed{side}', 2)  # controls listed as (c0, c1) or (c1, c0)
+            ctrls = [c1, c0] if swap else [c0, c1]
+            ops_.append(cirq.ControlledOperation(ctrls, cirq.X(tq) ** t, control_values=cv))
+            # operator on (c0, c1, t): X**t on the control states allowed for the listed controls, identity elsewhere
+            Mx = np.zeros((8, 8), dtype=object)
+            Mx[:] = 0
+            Xt = D.X(t)
+            for a in (0, 1):
+                for b in (0, 1):
+                    listed = (b, a) if swap else (a, b)
+                    blk = Xt if listed in allowed else np.eye(2)
+                    for i in (0, 1):
+                        for j in (0, 1):
+                            Mx[4 * a + 2 * b + i, 4 * a + 2 * b + j] = blk[i][j] if not hasattr(blk, 'shape') else blk[i, j]
+            mats.append(Mx)
+        r = ops_[0] == ops_[1]
+        if wrong:
+            r = True
+        if bool(r):
+            cx.check(hash(ops_[0]) == hash(ops_[1]), label='controlled operations: equal => equal hash')
+            cx.close(mats[0], mats[1], tol=1e-6, label='controlled operations: op1 == op2 => same operator (control values may be correlated)')
+
+    obs.append(Obligation('equality.controlled_operations', eq_ctrl_body, twin=lambda cx: eq_ctrl_body(cx, wrong=True), opts={'weight': 6}, desc='ControlledOperation(controls, X(t)**e, control_values) == ControlledOperation(...) for all pairs from a menu of 10 ProductOfSums / SumOfProducts control values (correlated ones included), controls listed in both orders, symbolic exponent: equality (and equal hash) implies the same operator, written out from the allowed joint control states'))
+
     # ---- 6. has_stabilizer_effect True => matrix maps Paulis to Paulis -------------------------------------------
     ST = [('X', lambda t: cirq.X**t, 1), ('Y', lambda t: cirq.Y**t, 1), ('Z', lambda t: cirq.Z**t, 1), ('H', lambda t: cirq.H**t, 1), ('CZ', lambda t: cirq.CZ**t, 2), ('CX', lambda t: cirq.CX**t, 2), ('SWAP', lambda t: cirq.SWAP**t, 2), ('ISWAP', lambda t: cirq.ISWAP**t, 2), ('ZZ', lambda t: cirq.ZZ**t, 2), ('XX', lambda t: cirq.XX**t, 2), ('YY', lambda t: cirq.YY**t, 2), ('PhasedX', lambda t: cirq.PhasedXPowGate(exponent=t, phase_exponent=0.5), 1), ('CY', lambda t: cirq.CY**t, 2)]
     for name, build, k in ST:
